@@ -395,7 +395,9 @@ def tieStep (_ : Unit) (ts : List String) : Unit × String :=
               | some ch => some ("S2c", ch.toCy == q, ch.wf)
               | none => match C01.ofCyCount1 q with
                 | some c1 => some ("S1c", c1.toCy == q, true)
-                | none => none
+                | none => match C01.ofCyCount2 q with
+                  | some c2 => some ("S2n", c2.toCy == q, c2.base.wf)
+                  | none => none
         match stage with
         | none => ((), "outside-fragment")
         | some (stg, reading, wf) =>
@@ -403,7 +405,7 @@ def tieStep (_ : Unit) (ts : List String) : Unit × String :=
           if !wf then ((), "outside-fragment not-well-formed-for-" ++ stg) else
           -- the hop's join order is the translator's choice (selectivity heuristic over its Go tree): the real statement must be the
           -- model statement for ONE of the two orders; `dir` records whether it is the order the model's approximation picks
-          let cands := [C01.tr4F (fun _ => false) (fun _ => false) true km q, C01.tr4F (fun _ => true) (fun _ => true) true km q].filterMap id
+          let cands := [C01.tr5F (fun _ => false) (fun _ => false) (fun _ => false) true true km q, C01.tr5F (fun _ => true) (fun _ => true) (fun _ => true) true true km q].filterMap id
           match cands with
           | [] => ((), "tie-differs model-translator-rejects-a-translated-query")
           | (st0, ps) :: _ =>
